@@ -252,6 +252,11 @@ def solve (A : Analysis D) (g : Graph) (univ : D) (blockCtx : Nat → D)
   | some r => pure r
   | none => throw "Timeout"
 
+/-- `_update_gtxn_constraints`, one entry: the at-index context `GTXN_i_field` of a block is narrowed by what is known of the own
+    transaction when `i` is a possible own index, and is empty otherwise -/
+def updateGtxn (A : Analysis D) (groupIndices : List Nat) (i : Nat) (v base : D) : D :=
+  if groupIndices.contains i then A.dom.inter v base else A.dom.null
+
 structure AnalysisResult (D : Type) where
   blockC : List (Key × List (Nat × D))     -- step-1 block constraints per key (gtx keys: after _update_gtxn_constraints)
   vals : List (Key × List (Nat × D))       -- final solution per key
@@ -298,7 +303,7 @@ def runAnalysis (A : Analysis D) (f : Function) (groupIndices : Nat → List Nat
     -- _update_gtxn_constraints
     let c := match key.kind with
       | .atIndex i => c0.map fun (k, v) =>
-          (k, if (groupIndices k).contains i then A.dom.inter v (baseVal k key.base) else A.dom.null)
+          (k, updateGtxn A (groupIndices k) i v (baseVal k key.base))
       | _ => c0
     let r ← solve A g (A.univ key.base) (fun k => getMap c k A.dom.null) (pc key)
     pure (key, c, r)
